@@ -411,6 +411,13 @@ def stack(arrays, axis=None, keys=None, align=False, **kwargs):
             msg = 'axes are not aligned\n ==> Try passing `align=True`' 
         raise ValueError(msg)
 
+    # the values are stacked as they are: every array must carry the common labels,
+    # also along its single-element axes (which _get_axes does not compare)
+    for a in arrays:
+        for ax in a.axes:
+            if ax.size != axes[ax.name].size or not np.all(ax.values == axes[ax.name].values):
+                raise ValueError('axes are not aligned\n ==> Try passing `align=True`')
+
     # new axes
     #newaxes = axes[:pos] + [newaxis] + axes[pos:] 
     newaxes = [newaxis] + axes
